@@ -128,6 +128,10 @@ def gen_script(rng, futures=True, max_pre=12, allow_cycles=True):
             end += start
     ctor = "duration" if (end is not None and rng.random() < 0.4 and int(((end - start) / 1e9) * 1e9) == end - start
                           and end > start) else "end_time"
+    if end is None and rng.random() < 0.3:
+        # the open horizon given explicitly, as an infinite instant that is EQUAL to Instant.Infinity without being that
+        # object (what copy.deepcopy / pickling of a built model produce); round-9 seed C01-17
+        ctor = "inf_copy"
     return dict(prog=prog, pre=pre, start=start, end=end, fuel=rng.choice([60, 150, 300]), pre_mode=pre_mode, pre_order=order,
                 ctor=ctor)
 
@@ -137,6 +141,9 @@ def horizon_kwargs(script):
     from happysimulator.core.temporal import Instant
     if script.get("ctor") == "duration" and script["end"] is not None:
         return dict(start_time=Instant(script["start"]), duration=(script["end"] - script["start"]) / 1e9)
+    if script.get("ctor") == "inf_copy" and script["end"] is None:
+        import copy
+        return dict(start_time=Instant(script["start"]), end_time=copy.deepcopy(Instant.Infinity))
     return dict(start_time=Instant(script["start"]), end_time=None if script["end"] is None else Instant(script["end"]))
 
 
